@@ -20,7 +20,7 @@
      exhausted, `monoDiv_ld`, so `sPairRems` would not have returned a value).
 -/
 import Algobra.Props.C11
-import Algobra.Proofs.Criterion2
+import Algobra.Proofs.Criterion3
 
 namespace Algobra
 namespace C11
@@ -67,6 +67,30 @@ theorem IsGroebnerBasis.exact {L : Lawful F K} {o : Order} {G : List (BPoly α)}
   fun f wf hne _ hmem => h f wf hne hmem
 
 /-! ### Buchberger's criterion -/
+
+/-- the ABSTRACT criterion (Proofs/Criterion.lean), for reference: `lt` a monomial order on `ℕ × ℕ`
+    (`Crit.MonOrd`), generators `gen i` with leading exponents `ex i` (`Crit.GenOK`), every
+    S-polynomial `Crit.sPol gen ex i j` in the `K`-span of the shifted generators `X^a · gen k` with
+    `a + ex k` strictly below `lcm (ex i) (ex j)` (`Crit.SPairsOK`).  Then every nonzero `f` of the
+    ideal has a largest exponent and it is of the form `a + ex i`. -/
+theorem abstract_criterion {ι : Type} {lt : ℕ × ℕ → ℕ × ℕ → Prop}
+    {gen : ι → AddMonoidAlgebra K (ℕ × ℕ)} {ex : ι → ℕ × ℕ} (H : Crit.MonOrd lt)
+    (hG : Crit.GenOK lt gen ex) (hS : Crit.SPairsOK lt gen ex) {f : AddMonoidAlgebra K (ℕ × ℕ)}
+    (hf : f ∈ Ideal.span (Set.range gen)) (hne : f ≠ 0) :
+    ∃ i a, f.coeff (a + ex i) ≠ 0 ∧ ∀ d, f.coeff d ≠ 0 → ¬ lt (a + ex i) d :=
+  Crit.criterion H hG hS hf hne
+
+/-- the model's `SPolynomial` is that S-polynomial (no guard needed beyond word-size inputs whose
+    `Ld` is a stored exponent: a wrapped comparison inside makes the function run out of fuel) -/
+theorem sPoly_is_sPolynomial (L : Lawful F K) {o : Order} {f g s : BPoly α} (hf : WF L f)
+    (hg : WF L g) (hfl : ld o f ∈ keys f) (hgl : ld o g ∈ keys g) (bf : Bounded f) (bg : Bounded g)
+    (h : sPoly F o f g = some s) :
+    toMv L s =
+      AddMonoidAlgebra.single (Crit.lcmD (ld o f) (ld o g) - ld o f) (L.embed (lc F o f))⁻¹
+        * toMv L f
+      - AddMonoidAlgebra.single (Crit.lcmD (ld o f) (ld o g) - ld o g) (L.embed (lc F o g))⁻¹
+        * toMv L g :=
+  (sPoly_exact L hf hg hfl hgl bf bg h).2.2
 
 /-- **BUCHBERGER'S CRITERION for the model**, every admissible order: well-formed nonzero
     generators with word-size exponents on which the comparisons are exact; all S-polynomials of
@@ -152,8 +176,8 @@ theorem buchberger_criterion_full_false :
     criterion discharged).  Hypotheses: admissible order, fresh receiver with well-formed
     generators of word size, a successful run whose S-polynomial divisions did not wrap around
     (`hsafe`, as in `buchberger_same_ideal_runOK`), and the result has no zero generator and exact
-    exponents (for the graded orders: `RunSafe` makes every appended remainder exact, so this is a
-    condition on the INPUT generators only — see `groebnerBasis_exact`). -/
+    exponents (`RunSafe` makes every appended remainder nonzero and exact, so this is a condition on
+    the INPUT generators only — see `groebnerBasis_groebner` below). -/
 theorem groebnerBasis_is_groebner (L : Lawful F K) {o : Order} (hadm : Order.Admissible o)
     {id gb : Ideal α} (hfresh : id.isGroebner ≠ 1) (hgens : ∀ g ∈ id.gens, WF L g ∧ Bounded g)
     (h : id.groebnerBasis F o = some gb) (hne : ∀ g ∈ gb.gens, g ≠ [])
@@ -180,6 +204,137 @@ theorem groebnerBasis_is_groebner_lex (L : Lawful F K) {o : Order} (hk : o.kind 
     Ideal.span ((toMv L) '' {g | g ∈ gb.gens}) = Ideal.span ((toMv L) '' {g | g ∈ id.gens}) :=
   groebnerBasis_is_groebner_of_criterion L (buchberger_criterion_full_of_lex L hk)
     (by unfold Order.Admissible; rw [hk]; trivial) hfresh hgens h hne hsafe
+
+/-- **C11, complete, hypotheses on the input only**: admissible order, fresh receiver whose
+    generators are well-formed, nonzero, of word size, with exact exponents (`Exact`: no condition
+    for Lex; for the graded orders: the weighted degrees are machine words), and a successful run
+    whose S-polynomial divisions did not wrap around.  Then the returned generators
+      * are well-formed, nonzero, of word size, with exact exponents,
+      * generate the ideal of the receiver's generators,
+      * form a Gröbner basis of it: `BPoly.GB` (the leading-exponent property for ALL elements of
+        the ideal, w.r.t. the mathematical order `tlt o`), hence `IsGroebnerBasisExact`. -/
+theorem groebnerBasis_groebner (L : Lawful F K) {o : Order} (hadm : Order.Admissible o)
+    {id gb : Ideal α} (hfresh : id.isGroebner ≠ 1)
+    (hgens : ∀ g ∈ id.gens, WF L g ∧ g ≠ [] ∧ Bounded g ∧ ∀ d ∈ keys g, Exact o d)
+    (h : id.groebnerBasis F o = some gb)
+    (hsafe : ∀ G, id.gens <+: G → G <+: gb.gens → RoundSafe F o (RunSafe F o) G) :
+    (∀ g ∈ gb.gens, WF L g ∧ g ≠ [] ∧ Bounded g ∧ ∀ d ∈ keys g, Exact o d) ∧
+    Ideal.span ((toMv L) '' {g | g ∈ gb.gens}) = Ideal.span ((toMv L) '' {g | g ∈ id.gens}) ∧
+    GB L o (Ideal.span ((toMv L) '' {g | g ∈ id.gens})) gb.gens ∧
+    IsGroebnerBasisExact L o gb.gens := by
+  rcases groebnerBasis_receiver_unchanged h with ⟨h1, -⟩ | ⟨-, -, -, -, hb, -⟩
+  · exact absurd h1 hfresh
+  · have hgood := buchberger_good L hgens hb hsafe
+    have hGB := GB.of_buchberger L hadm hgens hb hsafe
+    refine ⟨hgood, hGB.span hadm, hGB, ?_⟩
+    intro f wf hne hfx hmem
+    rw [hGB.span hadm] at hmem
+    obtain ⟨g, hg, -, hd⟩ := hGB.exact hadm wf hne hfx hmem
+    exact ⟨g, hg, hd⟩
+
+/-! ### non-vacuity -/
+
+section NonVacuity
+
+instance (F : FOps α) (o : Order) (ig : Option Nat) (gs : List (BPoly α)) (fuel : Nat)
+    (f : BPoly α) : Decidable (RunSafe F o ig gs fuel f) := by
+  unfold RunSafe; infer_instance
+
+/-- Boolean test of the guard of one round (sufficient) -/
+def roundSafeB (F : FOps α) (o : Order) (gb : List (BPoly α)) : Bool :=
+  (List.range gb.length).all fun j => (List.range j).all fun i =>
+    match sPoly F o (gb.getD i []) (gb.getD j []) with
+    | some s => decide (RunSafe F o none gb divFuel s)
+    | none => true
+
+theorem roundSafe_of_test {F : FOps α} {o : Order} {gb : List (BPoly α)}
+    (h : roundSafeB F o gb = true) : RoundSafe F o (RunSafe F o) gb := by
+  intro i j hij hj s hs
+  unfold roundSafeB at h
+  rw [List.all_eq_true] at h
+  have h1 := h j (List.mem_range.2 hj)
+  rw [List.all_eq_true] at h1
+  have h2 := h1 i (List.mem_range.2 hij)
+  have ei : gb.getD i [] = gb[i]'(by omega) := by
+    simp [List.getD_eq_getElem?_getD, show i < gb.length by omega]
+  have ej : gb.getD j [] = gb[j] := by simp [List.getD_eq_getElem?_getD, hj]
+  rw [ei, ej, hs] at h2
+  simpa using h2
+
+/-- `XY + 2`, `Y² + 2`, `X + 2Y` over GF(3), reference record -/
+def k1 : BPoly (ZMod 3) := [((1, 1), 1), ((0, 0), 2)]
+def k2 : BPoly (ZMod 3) := [((0, 2), 1), ((0, 0), 2)]
+def k3 : BPoly (ZMod 3) := [((1, 0), 1), ((0, 1), 2)]
+
+theorem wf_zmod3 (x : BPoly (ZMod 3)) (h1 : (keys x).Nodup) (h2 : ∀ dc ∈ x, dc.2 ≠ 0) :
+    WF (C05.fieldLawful (ZMod 3)) x := ⟨h1, fun dc hdc => ⟨trivial, h2 dc hdc⟩⟩
+
+theorem good_k : ∀ g ∈ [k1, k2, k3], WF (C05.fieldLawful (ZMod 3)) g ∧ g ≠ [] ∧ Bounded g ∧
+    ∀ d ∈ keys g, Exact lexO d := by
+  intro g hg
+  simp only [List.mem_cons, List.not_mem_nil, or_false] at hg
+  rcases hg with rfl | rfl | rfl
+  · exact ⟨wf_zmod3 _ (by decide) (by decide), by decide, by intro dc hdc; revert dc; decide,
+      fun _ _ => Or.inl rfl⟩
+  · exact ⟨wf_zmod3 _ (by decide) (by decide), by decide, by intro dc hdc; revert dc; decide,
+      fun _ _ => Or.inl rfl⟩
+  · exact ⟨wf_zmod3 _ (by decide) (by decide), by decide, by intro dc hdc; revert dc; decide,
+      fun _ _ => Or.inl rfl⟩
+
+/-- the hypotheses of `buchberger_criterion` hold for `G = [XY+2, Y²+2, X+2Y]` (three real
+    S-pairs), so `G` is a Gröbner basis -/
+example : IsGroebnerBasis (C05.fieldLawful (ZMod 3)) lexO [k1, k2, k3] := by
+  rw [← isGroebnerBasisExact_iff_lex _ rfl]
+  exact buchberger_criterion _ lexO [k1, k2, k3] trivial
+    (fun g hg => ⟨(good_k g hg).1, (good_k g hg).2.1, (good_k g hg).2.2.1⟩)
+    (fun g hg => (good_k g hg).2.2.2)
+    (roundSafe_of_test (by decide +kernel)) (by decide +kernel)
+
+/-- the same for a graded order (`DegLex`): all exponents and degrees are machine words -/
+example : IsGroebnerBasisExact (C05.fieldLawful (ZMod 3))
+    ({ kind := .wdeglex 1 1, xGtY := true } : Order) [k2, k3] := by
+  refine buchberger_criterion _ _ [k2, k3] trivial ?_ ?_
+    (roundSafe_of_test (by decide +kernel)) (by decide +kernel)
+  · intro g hg
+    simp only [List.mem_cons, List.not_mem_nil, or_false] at hg
+    rcases hg with rfl | rfl
+    · exact ⟨wf_zmod3 _ (by decide) (by decide), by decide, by intro dc hdc; revert dc; decide⟩
+    · exact ⟨wf_zmod3 _ (by decide) (by decide), by decide, by intro dc hdc; revert dc; decide⟩
+  · intro g hg
+    simp only [List.mem_cons, List.not_mem_nil, or_false] at hg
+    rcases hg with rfl | rfl
+    · intro d hd; right; revert d; decide
+    · intro d hd; right; revert d; decide
+
+/-- the hypotheses of `groebnerBasis_groebner` hold for the run on `⟨XY+2, Y²+2⟩` -/
+example :
+    let F := C05.fieldOps (ZMod 3)
+    let id : BPoly.Ideal (ZMod 3) := { gens := [k1, k2] }
+    id.isGroebner ≠ 1 ∧
+    (∀ g ∈ id.gens, WF (C05.fieldLawful (ZMod 3)) g ∧ g ≠ [] ∧ Bounded g ∧
+      ∀ d ∈ keys g, Exact lexO d) ∧
+    id.groebnerBasis F lexO = some ⟨[k1, k2, k3], 1, 0, 0⟩ ∧
+    (∀ G, id.gens <+: G → G <+: [k1, k2, k3] → RoundSafe F lexO (RunSafe F lexO) G) := by
+  intro F id
+  refine ⟨by decide, fun g hg => good_k g (by
+    simp only [id, List.mem_cons, List.not_mem_nil, or_false] at hg ⊢
+    rcases hg with h | h <;> simp [h]), ?_, ?_⟩
+  · have hb : buchberger F lexO groebnerFuel [k1, k2] = some [k1, k2, k3] := by decide +kernel
+    show Ideal.groebnerBasis F lexO id = _
+    unfold Ideal.groebnerBasis
+    rw [if_neg (by decide), hb]; rfl
+  intro gb hp1 hp2
+  have e := List.prefix_iff_eq_take.1 hp2
+  have l1 := hp1.length_le
+  have l2 := hp2.length_le
+  simp only [id, List.length_cons, List.length_nil] at l1 l2
+  apply roundSafe_of_test
+  have : gb.length = 2 ∨ gb.length = 3 := by omega
+  rcases this with h | h
+  · rw [e, h]; decide +kernel
+  · rw [e, h]; decide +kernel
+
+end NonVacuity
 
 end C11
 end Algobra
